@@ -165,7 +165,8 @@ protected:
   }
 
   inline void decodeNext() {
-    uchar *vb = new uchar[maxlength];
+    // A rule may expand to the whole internal string: VByte, suffix and end mark
+    uchar *vb = new uchar[maxlength + 8];
     uint read = 0;
 
     uint rule;
